@@ -90,7 +90,7 @@ func VerifC01Header(hlen, snl, fl, forms int) {
 func VerifC01Options(l1, l2, l3 int) {
 	lens := []int{}
 	for _, l := range []int{l1, l2, l3} {
-		if l >= 0 {
+		if l >= 0 || l == -2 { // -2: present with a nil value
 			lens = append(lens, l)
 		}
 	}
@@ -104,7 +104,9 @@ func VerifC01Options(l1, l2, l3 int) {
 		for j := 0; j < i; j++ {
 			verifAssume(codes[i] != codes[j])
 		}
-		vals[i] = verifBytes("val", lens[i])
+		if lens[i] >= 0 {
+			vals[i] = verifBytes("val", lens[i])
+		}
 	}
 	p := &DHCPv4{OpCode: OpcodeBootRequest, HWType: iana.HWTypeEthernet, Options: Options{}}
 	for i := 0; i < k; i++ {
